@@ -78,7 +78,9 @@ def to0(seq):
     return [int(i) - 1 for i in seq]
 
 
-def kc_runs(case, forms=("function",), dtypes=("float64",)):
+def kc_runs(case, forms=("function",), dtypes=("float64",), beyond=False):
+    """runs of the real k-centers for one enumerated case; beyond=True adds the same configuration asked for MORE
+    clusters than there are frames (only the radius criterion can stop such a run)"""
     base = dict(pts=case["pts"], metric=case["metric"], algo="kcenters", k=case["k"], cut=case["cut"],
                 ti=case["ti"], init=to0(case["init"]))
     out = []
@@ -87,6 +89,10 @@ def kc_runs(case, forms=("function",), dtypes=("float64",)):
             continue            # the estimator has no shortcut switch
         for dt in dtypes:
             out.append(dict(base, form=f, dtype=dt))
+    if beyond and case["k"] >= 2:
+        for f in ("function", "estimator"):
+            if not (f == "estimator" and case["ti"]):
+                out.append(dict(base, form=f, dtype=dtypes[0], k=len(case["pts"]) + 2))
     return out
 
 
